@@ -17,23 +17,9 @@ from amoco.arch.z80 import env
 # modifications of spec_mostek.ISPECS according to GB specs...
 # (all DD/FD prefixed spec are removed IX/IY
 
-# remove unused registers:
-del env.ix, env.iy
-del env.ir
-del env.i, env.r
-del env.ixh, env.ixl
-del env.iyh, env.iyl
-
-# remove unused flags & conditions:
-del env.pf
-del env.xf
-del env.yf
-del env.sf
-
-del env.CONDITION[0b100]
-del env.CONDITION[0b101]
-del env.CONDITION[0b110]
-del env.CONDITION[0b111]
+# the env module is shared with the z80 cpu (spec_mostek): the registers, flags
+# and conditions that the GB does not have (ix, iy, ir, pf, sf, po/pe/p/m ...)
+# are just not used by the specs below and must not be removed from it.
 
 # update flags:
 env.cf.pos = 4
